@@ -206,4 +206,43 @@ PROPS = {
         "level_text": "Each execution's whole ArgMatches tree is compared with the intent tree; globals are checked as an agreement invariant across levels.",
         "level_note": "Trusted: 'deepest explicit occurrence wins' as the statement of the documented global semantics.",
     },
+    "C03": {
+        "quick_ms": 15000,
+        "thorough_ms": 240000,
+        "floors": {"result.ok": 20000, "result.err": 20000, "relevant.requirement-satisfied": 5000, "relevant.exempt-conflict": 1000,
+                   "relevant.exempt-exclusive": 200, "relevant.exempt-subcommand": 500, "relevant.conflict-half-present": 1000},
+        "rule": "2-7 flags/options (defaults, env) + 0-2 groups (required/multiple/conflicts/requires) with random relation digraphs: conflicts_with "
+                "(args and groups), requires, requires_if(s), overrides (1/3 of cases, incl. chains and self), required, exclusive, "
+                "required_unless_present_any/_all, required_if_eq_any/_all, subcommand_negates_reqs / args_conflicts_with_subcommands x argv "
+                "supplying a uniformly sized random subset (with repeats under overrides) + env. Oracle on every Ok: independent evaluator over "
+                "the explicitly present set (value_source in {CommandLine, EnvVariable}): declared conflicts both present, exclusive not alone, "
+                "non-multiple group with two members, anything required (statically, by a present argument's requires/requires_if, required "
+                "group, group requires, required-if/unless) absent without a documented exemption.",
+        "assumptions": COMMON_ASSUME + ["exemptions are modelled generously (conflict partners include non-multiple group siblings and overrides in both directions; a required group is excused "
+                                        "if any member is blocked): the evaluator can miss a defect but not invent one"],
+        "technique": "invariant monitor: independent relation checker over every successful parse of random relation graphs",
+        "level_text": "No parsing model is needed: the observed presence set of each Ok result is checked against the declared relation graph; floors require every exemption kind to have been exercised.",
+        "level_note": "Trusted: the evaluator (~200 lines). Only Ok results are judged here; unjustified rejections are C10's half.",
+    },
+    "C10": {
+        "quick_ms": 20000,
+        "thorough_ms": 300000,
+        "floors": {"faultfree.accepted": 10000, "fault.UnknownLong": 5000, "fault.SurplusPositional": 1000, "fault.DropRequired": 1000, "fault.RepeatSet": 300,
+                   "fault.TooFewValues": 1000, "fault.NoValueAtEnd": 1000, "fault.ValueOnFlag": 2000, "fault.BadTypedValue": 500, "fault.MissingEquals": 80,
+                   "fault.MissingSubcommand": 100, "fault.NonUtf8": 3000, "contract.DisplayHelp": 100, "contract.DisplayVersion": 30,
+                   "relations.conflict-error": 2000, "relations.missing-error": 2000, "suggestion.arg": 100, "suggestion.subcommand": 30},
+        "rule": "conventional trees (as C02, with typed options and subcommand_required levels) x valid intents: (a) the fault-free rendering must be "
+                "accepted; (b) 12 single-fault injectors, each applied only where it breaks exactly one rule (unknown long/short in front, surplus "
+                "positional, dropped required option, repeated non-overriding Set, one value too few, option at end without value, `--flag=v`, "
+                "out-of-range / non-numeric typed value, detached value under require_equals, omitted required subcommand, non-UTF-8 into a String "
+                "parser) must be rejected with the justified kind; over random relation graphs every ArgumentConflict / MissingRequiredArgument must "
+                "be backed by a declared conflict among the supplied arguments / a rule that requires something absent, and no other kind may occur; "
+                "(c) every error seen (incl. from hostile argv): (use_stderr, exit_code) == (false,0) for DisplayHelp/DisplayVersion else (true,2), "
+                "help/version only when the line contains a help/version-looking token; (d) SuggestedArg/Subcommand/Value context names something defined.",
+        "assumptions": COMMON_ASSUME + ["fault injectors skip lines where the fault would interact with an open occurrence (stated per injector in c10.rs)",
+                                        "justification of relation errors is a sound over-approximation of clap's rules (a superset of reasons)"],
+        "technique": "fault-injection runtime monitor on intent-valid histories + justification oracle + error-contract invariant on every observed error",
+        "level_text": "Single faults are injected into lines known to be valid, so the rejected rule is known by construction; the stream/exit contract and suggestion soundness are invariants checked on every error observed (10^5 per quick run).",
+        "level_note": "Trusted: the fault injectors' applicability conditions and the justified-kind table (DESIGN C10).",
+    },
 }
